@@ -1,0 +1,198 @@
+//! The width-budget arithmetic of function signatures and of a few other one-line-or-not
+//! decisions, with plain integers: an `Indent` is `(block_indent, alignment)`, a `Shape` is
+//! `(width, block_indent, alignment, offset)`. Code that can panic does panic.
+
+use rustc_ast::ast;
+use rustc_ast::visit::{self, Visitor};
+
+use crate::config::{Config, Verbosity};
+use crate::expr::verif_local as el;
+use crate::items::verif_local as il;
+use crate::parse::parser::Parser;
+use crate::parse::session::ParseSess;
+use crate::rewrite::RewriteContext;
+use crate::shape::{Indent, Shape};
+use crate::visitor::{FmtVisitor, SnippetProvider};
+use crate::{FormatReport, Input};
+
+pub type I = (usize, usize);
+pub type S = (usize, usize, usize, usize);
+
+fn indent(x: I) -> Indent {
+    Indent {
+        block_indent: x.0,
+        alignment: x.1,
+    }
+}
+fn shape(x: S) -> Shape {
+    Shape {
+        width: x.0,
+        indent: Indent {
+            block_indent: x.1,
+            alignment: x.2,
+        },
+        offset: x.3,
+    }
+}
+fn indent_out(x: Indent) -> I {
+    (x.block_indent, x.alignment)
+}
+fn shape_out(x: Shape) -> S {
+    (x.width, x.indent.block_indent, x.indent.alignment, x.offset)
+}
+
+/// A `RewriteContext` over a parsed text, for the functions that read the configuration
+/// through it.
+pub struct Ctx<'a, 'b> {
+    context: &'a RewriteContext<'b>,
+    krate: &'a ast::Crate,
+}
+
+/// Runs `f` with a context over `src` (parsed the way a file is) and `config`; `None` when the
+/// text does not parse.
+pub fn with_ctx<R>(src: &str, config: &Config, f: impl FnOnce(&Ctx<'_, '_>) -> R) -> Option<R> {
+    let mut config = config.clone();
+    config.set().verbose(Verbosity::Quiet);
+    config.set().show_parse_errors(false);
+    rustc_span::create_session_if_not_set_then(config.edition().into(), |_| {
+        let mut psess = ParseSess::new(&config).ok()?;
+        let krate = Parser::parse_crate(Input::Text(src.to_owned()), &psess).ok()?;
+        psess.set_silent_emitter();
+        let snippet_provider: SnippetProvider = psess.snippet_provider(krate.spans.inner_span);
+        let visitor =
+            FmtVisitor::from_psess(&psess, &config, &snippet_provider, FormatReport::new());
+        let context = visitor.get_context();
+        Some(f(&Ctx {
+            context: &context,
+            krate: &krate,
+        }))
+    })
+}
+
+struct FirstControlFlow<'ast> {
+    found: Option<&'ast ast::Expr>,
+}
+
+impl<'ast> Visitor<'ast> for FirstControlFlow<'ast> {
+    fn visit_expr(&mut self, e: &'ast ast::Expr) {
+        if self.found.is_some() {
+            return;
+        }
+        match e.kind {
+            ast::ExprKind::If(..)
+            | ast::ExprKind::While(..)
+            | ast::ExprKind::ForLoop { .. }
+            | ast::ExprKind::Loop(..) => self.found = Some(e),
+            _ => visit::walk_expr(self, e),
+        }
+    }
+}
+
+struct FirstWhere<'ast> {
+    found: Option<&'ast ast::WhereClause>,
+}
+
+impl<'ast> Visitor<'ast> for FirstWhere<'ast> {
+    fn visit_generics(&mut self, g: &'ast ast::Generics) {
+        if self.found.is_none() {
+            self.found = Some(&g.where_clause);
+        }
+    }
+}
+
+impl<'a, 'b> Ctx<'a, 'b> {
+    /// `context.budget(used_width)`.
+    pub fn budget(&self, used_width: usize) -> usize {
+        self.context.budget(used_width)
+    }
+
+    /// `compute_budgets_for_params` on a `result` of `result_len` bytes (`x`, the last one a
+    /// line feed when `result_newline`); `brace`: 0 = `SameLine`, 1 = `NextLine`, 2 = `None`.
+    pub fn compute_budgets_for_params(
+        &self,
+        result_len: usize,
+        result_newline: bool,
+        ind: I,
+        ret_str_len: usize,
+        brace: u8,
+        force_vertical_layout: bool,
+    ) -> (usize, usize, I) {
+        let mut result = "x".repeat(result_len);
+        if result_newline && result_len > 0 {
+            result.pop();
+            result.push('\n');
+        }
+        let (a, b, c) = il::compute_budgets_for_params(
+            self.context,
+            &result,
+            indent(ind),
+            ret_str_len,
+            brace,
+            force_vertical_layout,
+        );
+        (a, b, indent_out(c))
+    }
+
+    /// `newline_for_brace(config, where_clause)` on the first generics of the text.
+    pub fn newline_for_brace(&self) -> Option<u8> {
+        let mut v = FirstWhere { found: None };
+        visit::walk_crate(&mut v, self.krate);
+        Some(il::newline_for_brace(self.context.config, v.found?))
+    }
+
+    /// `shape_from_rhs_tactic`; `t`: 0 = `Default`, 1 = `ForceNextLineWithoutIndent`,
+    /// 2 = `AllowOverflow`.
+    pub fn shape_from_rhs_tactic(&self, s: S, t: u8) -> Option<S> {
+        el::shape_from_rhs_tactic(self.context, shape(s), t).map(shape_out)
+    }
+
+    /// `rewrite_assign_rhs_expr(context, lhs, rhs, shape, &RhsAssignKind::Ty, tactics)` where
+    /// `rhs` answers its k-th call with `answers[k]` (`None`: an error; the last answer
+    /// repeats): the shapes it was handed, in order, and the result (`None`: an error).
+    pub fn rewrite_assign_rhs_expr(
+        &self,
+        lhs: &str,
+        s: S,
+        t: u8,
+        answers: &[Option<&str>],
+    ) -> (Vec<S>, Option<String>) {
+        let probe = el::Probe {
+            seen: Default::default(),
+            answers: answers.iter().map(|a| a.map(str::to_owned)).collect(),
+        };
+        let r = el::rewrite_assign_rhs_expr(self.context, lhs, &probe, shape(s), t).ok();
+        let seen = probe.seen.borrow().iter().map(|x| shape_out(*x)).collect();
+        (seen, r)
+    }
+
+    /// `ControlFlow::rewrite_cond(context, shape, "\n")` of the first `if` / `while` / `for` /
+    /// `loop` of the text: `Ok((text, used_width))` or `Err(())`; `None` when there is none.
+    pub fn rewrite_cond(&self, nested_if: bool, s: S) -> Option<Result<(String, usize), ()>> {
+        let mut v = FirstControlFlow { found: None };
+        visit::walk_crate(&mut v, self.krate);
+        el::rewrite_cond(self.context, v.found?, nested_if, shape(s), "\n")
+            .map(|r| r.map_err(|_| ()))
+    }
+}
+
+/// `generics_shape_from_config(config, shape, offset, span)`: the shape or `Err(configured_width)`.
+pub fn generics_shape_from_config(config: &Config, s: S, offset: usize) -> Result<S, usize> {
+    il::generics_shape_from_config(config, shape(s), offset)
+        .map(shape_out)
+        .map_err(|e| e.configured_width)
+}
+
+/// `utils::last_line_used_width(s, offset)`.
+pub fn last_line_used_width(s: &str, offset: usize) -> usize {
+    crate::utils::last_line_used_width(s, offset)
+}
+
+/// `utils::last_line_width(s)`.
+pub fn last_line_width(s: &str) -> usize {
+    crate::utils::last_line_width(s)
+}
+
+/// `utils::first_line_width(s)`.
+pub fn first_line_width(s: &str) -> usize {
+    crate::utils::first_line_width(s)
+}
